@@ -4,7 +4,8 @@ Some rules need the value a formatting/decoding fragment produces for each *clas
 negative one, an already formatted string, a missing value ...).  The fragment is read from the ast and its expressions
 are folded with the constant folder on one representative per class; statements supported: assignments (names, tuple
 targets, augmented), if/elif/else, try/except (an exception raised while folding selects the handler that names it),
-`name.append(x)` / `name.extend(x)` on local lists, for-loops over folded iterables, return/continue/break.  Anything
+`name.append(x)` / `name.extend(x)` on local lists, for-loops over folded iterables, return/continue/break, `raise` of a builtin
+exception type, `with` over a rule-supplied context stub, calls of rule-supplied callables as statements.  Anything
 else stops the evaluation with Unknown - the rule then reports 'not evaluable', never a verdict.  No code of the
 repository is imported or executed: only literals, operators and a fixed table of builtins are interpreted.
 """
@@ -110,20 +111,28 @@ BASE = {
 }
 
 
+_EXC = {n: getattr(__import__("builtins"), n) for n in ("ValueError", "KeyError", "IndexError", "TypeError", "LookupError", "ArithmeticError", "ZeroDivisionError", "AttributeError", "RuntimeError", "NotImplementedError", "AssertionError", "StopIteration", "OverflowError", "UnicodeError", "OSError", "FileNotFoundError", "Exception")}
+
+
 class BlockEval:
-    def __init__(self, repo, module: str, env: Optional[Dict[str, Any]] = None, max_steps: int = 2000):
+    def __init__(self, repo, module: str, env: Optional[Dict[str, Any]] = None, max_steps: int = 2000, world: Optional[Dict[str, Any]] = None):
+        """`world` (optional): rule-supplied stand-ins for global names (Enum classes, constructors, module functions); they are
+        visible in the fragment *and* while module-level constants the fragment reads are folded (see Folder)."""
         self.repo, self.module = repo, module
+        self.world: Dict[str, Any] = dict(world or {})
         self.env: Dict[str, Any] = dict(BASE)
+        self.env.update(self.world)
         self.env.update(env or {})
         self.steps = 0
         self.max_steps = max_steps
         self.trace: List[ast.stmt] = []
+        self._handling: List[BaseException] = []
 
     # ---- expressions ---------------------------------------------------------------------------
     def fold(self, e: ast.AST) -> Any:
         e2 = ast.fix_missing_locations(_Rewrite().visit(copy.deepcopy(e)))
         try:
-            return Folder(self.repo, self.module, self.env).fold(e2)
+            return Folder(self.repo, self.module, self.env, world=self.world).fold(e2)
         except NotConst as ex:
             raise Unknown(f"`{ast.unparse(e)[:60]}`: {ex}")
 
@@ -183,8 +192,14 @@ class BlockEval:
                 name = type(ex).__name__
                 for h in st.handlers:
                     types = [] if h.type is None else ([ast.unparse(t).split(".")[-1] for t in h.type.elts] if isinstance(h.type, ast.Tuple) else [ast.unparse(h.type).split(".")[-1]])
-                    if h.type is None or name in types or "Exception" in types or "BaseException" in types:
-                        self._block(h.body)
+                    if h.type is None or name in types or "Exception" in types or "BaseException" in types or any(t in _EXC and isinstance(ex, _EXC[t]) for t in types):
+                        if h.name:
+                            self.env[h.name] = ex
+                        self._handling.append(ex)
+                        try:
+                            self._block(h.body)
+                        finally:
+                            self._handling.pop()
                         break
                 else:
                     raise
@@ -205,6 +220,8 @@ class BlockEval:
                 pass
             elif isinstance(c, ast.Call) and (ast.unparse(c.func).split(".")[0] in ("logging", "logger", "warnings", "print")):
                 pass
+            elif isinstance(c, ast.Call) and isinstance(c.func, ast.Name) and callable(self.env.get(c.func.id)) and c.func.id not in BASE:
+                self.fold(c)  # a rule-supplied callable (stub or evaluated module function) called for its effect on the containers it is handed
             else:
                 raise Unknown(f"statement `{ast.unparse(st)[:50]}`")
         elif isinstance(st, ast.For):
@@ -221,6 +238,33 @@ class BlockEval:
                     raise
             else:
                 self._block(st.orelse)
+        elif isinstance(st, ast.With):
+            # `with <expr> as name:` - only for context managers the rule supplies (a stub marked _blockeval_context, e.g. an opened listing)
+            for item in st.items:
+                v = self.fold(item.context_expr)
+                if not getattr(v, "_blockeval_context", False):
+                    raise Unknown(f"with-statement over `{ast.unparse(item.context_expr)[:40]}`")
+                if item.optional_vars is not None:
+                    self._assign(item.optional_vars, v)
+            self._block(st.body)
+        elif isinstance(st, ast.Raise):
+            # `raise ValueError(...)` of a builtin exception type is the exception itself (selects a handler like one raised by an
+            # interpreted builtin); a bare `raise` in a handler re-raises the exception being handled
+            if st.exc is None:
+                if not self._handling:
+                    raise Unknown("bare raise outside a handler")
+                raise self._handling[-1]
+            f = st.exc.func if isinstance(st.exc, ast.Call) else st.exc
+            if not (isinstance(f, ast.Name) and f.id in _EXC and f.id not in self.env):
+                raise Unknown(f"statement `{ast.unparse(st)[:50]}`")
+            args = []
+            if isinstance(st.exc, ast.Call):
+                for a in st.exc.args:
+                    try:
+                        args.append(self.fold(a))
+                    except Unknown:
+                        args.append("...")
+            raise _EXC[f.id](*args)
         elif isinstance(st, ast.Return):
             raise _Stop("return", self.fold(st.value) if st.value is not None else None)
         elif isinstance(st, ast.Continue):
